@@ -11,6 +11,11 @@
    extracted [count_reach], variable order) with the observation of each model state; NC results
    are compared with the model's node count.  Also evaluates the renaming theorems' definitions on
    the real table: [rename_snap (addr_of 4096 4)] must leave observation, wf_b, rc_exact_b alone.
+   C20x: traces of kind=bcdd / kind=zbdd are replayed the same way on the extracted [Model.cmstep]
+   (coq/DD/ConfigBcdd.v) / [Model.zmstep] (coq/DD/ConfigZbdd.v; start table = the tautology chain
+   built by the extracted [zadd_vars]) under three model configurations each (store / edge order /
+   cache / schedule all different); additionally [bcok_b] / [zbdd_ok_b] + [zchain_ok_b] (the
+   hypotheses of C20_bcdd_run_ops_observe / C20_zbdd_run_ops_observe) are evaluated on every model table.
      kind=prop : the real run differs from the (configuration independent) model observation
      kind=corr : the model configurations disagree among themselves / the model fails / trace unusable *)
 open Conv
@@ -61,6 +66,66 @@ let model_cfgs (n : int) : cfg list =
       (fun k -> let k = int_of_nat k in par (fun len -> ((len + k) mod 2 = 0, k mod 2 = 1)) 2)
       [] s0 ]
 
+(* ---- C20x: complement-edge and zero-suppressed kinds ------------------------------------- *)
+let make_cfg_c (type c) name alloc lt
+    (cget : c -> Model.n -> Model.edge list -> Model.edge option)
+    (cadd : c -> Model.n -> Model.edge list -> Model.edge -> c)
+    (sch : Model.nat -> Model.sched) (c0 : c) (s0 : Model.snap) : cfg =
+  let st = ref (Some { Model.cm_snap = s0; Model.cm_cache = c0; Model.cm_step = Model.O }) in
+  { name;
+    step = (fun o ->
+        match !st with
+        | None -> false
+        | Some x -> st := Model.cmstep alloc lt cget cadd sch x o; !st <> None);
+    snap = (fun () -> match !st with Some x -> Some x.Model.cm_snap | None -> None) }
+
+let make_cfg_z (type c) name alloc gt
+    (cget : c -> Model.n -> Model.ref list -> Model.nat list -> Model.ref option)
+    (cadd : c -> Model.n -> Model.ref list -> Model.nat list -> Model.ref -> c)
+    (sch : Model.nat -> Model.sched) (c0 : c) (s0 : Model.snap) : cfg =
+  let st = ref (Some { Model.zm_snap = s0; Model.zm_cache = c0; Model.zm_step = Model.O }) in
+  { name;
+    step = (fun o ->
+        match !st with
+        | None -> false
+        | Some x -> st := Model.zmstep alloc gt cget cadd sch x o; !st <> None);
+    snap = (fun () -> match !st with Some x -> Some x.Model.zm_snap | None -> None) }
+
+let par_sched (f : int -> bool * bool) d = Model.sched_depth (nat d) (fun path -> f (List.length path)) []
+let alloc_addr s = Model.addr_of (pos_of_z (Z.of_int 4096)) (nat 4) (Model.fresh_id s)
+let alloc_odd s = Model.addr_of Model.XH (nat 1) (Model.fresh_id s)
+let sch_swapped _ = par_sched (fun _ -> (true, true)) 3
+let sch_mixed k = let k = int_of_nat k in par_sched (fun len -> ((len + k) mod 2 = 0, k mod 2 = 1)) 2
+
+let ekey (e : Model.edge) = (zref e.Model.eref, e.Model.etag)
+
+let model_cfgs_bcdd (n : int) : cfg list =
+  let ids = List.init n nat in
+  let s0 = { Model.s_kind = Model.KBcdd; Model.s_nodes = Model.PositiveMap.empty;
+             Model.s_terms = [ (n_of_int 0, n_of_int 1) ];
+             Model.s_v2l = ids; Model.s_l2v = ids; Model.s_handles = [] } in
+  [ make_cfg_c "A" Model.fresh_id (fun _ _ -> false) Model.enc_get Model.enc_add (fun _ -> Model.SSeq) () s0;
+    make_cfg_c "B" alloc_addr (fun a b -> compare (ekey a) (ekey b) < 0) Model.eac_get Model.eac_add sch_swapped [] s0;
+    make_cfg_c "C" alloc_odd (fun a b -> compare (ekey a) (ekey b) > 0) Model.enc_get Model.enc_add sch_mixed () s0 ]
+
+let model_cfgs_zbdd (n : int) : cfg list =
+  let e0 = { Model.s_kind = Model.KZbdd; Model.s_nodes = Model.PositiveMap.empty;
+             Model.s_terms = [ (n_of_int 0, n_of_int 0); (n_of_int 1, n_of_int 1) ];
+             Model.s_v2l = []; Model.s_l2v = []; Model.s_handles = [] } in
+  match Model.zadd_vars e0 (nat n) with
+  | None -> []
+  | Some (s0, _) ->
+    [ make_cfg_z "A" Model.fresh_id (fun _ _ -> false) Model.znc_get Model.znc_add (fun _ -> Model.SSeq) () s0;
+      make_cfg_z "B" alloc_addr (fun a b -> Z.gt (zref a) (zref b)) Model.zac_get Model.zac_add sch_swapped [] s0;
+      make_cfg_z "C" alloc_odd (fun a b -> Z.lt (zref a) (zref b)) Model.znc_get Model.znc_add sch_mixed () s0 ]
+
+(* the hypotheses of the history theorems, on a model table *)
+let kind_ok (kname : string) (s : Model.snap) : bool =
+  match kname with
+  | "bcdd" -> Model.bcok_b s
+  | "zbdd" -> Model.zbdd_ok_b s && Model.zchain_ok_b s
+  | _ -> Model.wf_b s
+
 (* observation of a table: per slot (sorted) value table and node count; variable order *)
 let observation (s : Model.snap) : string =
   let n = List.length s.Model.s_l2v in
@@ -86,6 +151,10 @@ let () =
       let failed = ref false in
       let fail step kind msg =
         if not !failed then (failed := true; verdict_bad c step kind ("prop=C20 " ^ msg)) in
+      let kname = match param c "kind" with Some k -> k | None -> "bdd" in
+      let cfgs_of n = match kname with
+        | "bcdd" -> model_cfgs_bcdd n | "zbdd" -> model_cfgs_zbdd n | _ -> model_cfgs n in
+      stat ("cases_" ^ kname) 1;
       let cfgs : cfg list ref = ref [] in
       let usable = ref true in
       List.iteri
@@ -106,7 +175,8 @@ let () =
               stat ("op_" ^ List.hd toks) 1;
               match toks with
               | [ "VARS"; k ] ->
-                if !cfgs = [] then cfgs := model_cfgs (int_of_string k)
+                if !cfgs = [] then (cfgs := cfgs_of (int_of_string k);
+                                    if !cfgs = [] then fail i "corr" "model: no start table")
                 else (stat "unsupported" 1; usable := false)
               | [ "VAR"; d; v ] -> run (Model.MVar (n_of_int (slot_of d), nat (int_of_string v), false))
               | [ "NVAR"; d; v ] -> run (Model.MVar (n_of_int (slot_of d), nat (int_of_string v), true))
@@ -138,7 +208,7 @@ let () =
                  | _ -> fail i "corr" ("unexpected NC result: " ^ l))
               | [ "SNAP" ] ->
                 (try
-                   let ps = parse_snapshot "bdd" res in
+                   let ps = parse_snapshot kname res in
                    let real = observation ps.snap in
                    stat "snapshots" 1;
                    (* model configurations among themselves *)
@@ -150,7 +220,9 @@ let () =
                           if o <> o0 then fail i "corr" ("model configurations A and " ^ nm ^ " disagree: " ^ o0 ^ " / " ^ o))
                         rest;
                       List.iter (fun (nm, s, _) ->
-                          if not (Model.wf_b s) then fail i "corr" ("model table of configuration " ^ nm ^ " not well-formed"))
+                          if not (Model.wf_b s) then fail i "corr" ("model table of configuration " ^ nm ^ " not well-formed");
+                          if not (kind_ok kname s) then
+                            fail i "corr" ("model table of configuration " ^ nm ^ " violates the kind's invariant (bcok_b / zbdd_ok_b + zchain_ok_b)"))
                         mobs;
                       stat "model_tables_distinct"
                         (if List.exists (fun (_, s, _) -> s <> (let (_, s0, _) = List.hd mobs in s0)) rest then 1 else 0);
